@@ -15,6 +15,11 @@ pub trait KKTSolver<T: FloatT>: HasLinearSolverInfo {
     ) -> bool;
     fn update_P(&mut self, P: &CscMatrix<T>);
     fn update_A(&mut self, A: &CscMatrix<T>);
+    #[cfg(clarabel_verif)]
+    /// read-only view of the KKT matrix and its index maps (verification hook)
+    fn verif_view(&self) -> Option<crate::verif::KKTView> {
+        None
+    }
 }
 
 pub trait HasLinearSolverInfo {
